@@ -67,7 +67,7 @@ CHECKS.update({
 
 CHECKS.update({
     "C11": dict(
-        text="ProposeWait.tla models the register / propose / gap / select protocol of proposeAndWaitForCommit against the non-blocking notify of the apply loop, with the switch NotifCap (TLC: Truthful and Delivered hold for capacity 1, counterexample for the shipped capacity 0). On the real code a gate after raft.Propose forces both orders (caller first, apply loop first) for every outcome class on a real single-replica raft group, concurrent gated callers on equal and distinct ids, scripted remote owners (ok / failing / no address), dimension mismatches, and batches mixing partitions and item kinds; ProposeWaitTrace requires the sequential-set outcome for every local call, an error whenever the owner was not reached, and exactly the failed ids in batch answers.",
+        text="ProposeWait.tla models the register / propose / gap / select protocol of proposeAndWaitForCommit against the non-blocking notify of the apply loop, with the switch NotifCap (TLC: Truthful and Delivered hold for capacity 1, counterexample for the shipped capacity 0). On the real code a gate after raft.Propose forces both orders (caller first, apply loop first) for every outcome class on a real single-replica raft group, concurrent gated callers on equal and distinct ids, scripted remote owners (ok / failing / no address), dimension mismatches, and batches mixing partitions and item kinds; ProposeWaitTrace requires the sequential-set outcome for every local call, an error whenever the owner was not reached, and exactly the failed ids in batch answers. On three real server processes a sequential client writes through every node: every acknowledgement and every definite refusal (exists / not found) must be true of the item at that moment, and what Search returns later must be exactly what was acknowledged (ClusterViewTrace: DuplicateInsertAcked, AbsentItemAcked, SpuriousExists, SpuriousNotFound, AckedLostOnRestart, GhostAfterRestart).",
         note="One real single-replica raft group on in-memory Badger; remote owners are scripted gRPC servers; multi-replica log behaviour is C05.",
         technique="TLA+ model checking (TLC) + gate-forced caller/apply-loop orders on the real write path + TLC trace validation", ref="5/C11"),
 })
